@@ -434,11 +434,13 @@ Definition apply_contracts (i : idx) (ch : changes) (s : state) : rs state :=
   dor s <- each2 (succ2 i N2) (cRen2 ch) s ;
   each2 (fail2 i) (cFail2 ch) s.
 
+(* v1: formations are reverted last (fixes/C01-v1-created-and-resolved-same-block.patch): a contract
+   formed and resolved in one block is active again only after its resolution has been reverted *)
 Definition revert_contracts (ch : changes) (s : state) : rs state :=
-  dor s <- each1 rform1 (cConf1 ch) s ;
   dor s <- foldM (fun s p => with1 (fst p) (revise_conf1 (snd p)) s) (cRev1 ch) s ;
   dor s <- each1 rsucc1 (cSucc1 ch) s ;
   dor s <- each1 rfail1 (cFail1 ch) s ;
+  dor s <- each1 rform1 (cConf1 ch) s ;
   dor s <- each2 rform2 (map fst (cConf2 ch)) s ;
   dor s <- foldM (fun s p => with2 (fst p) (revise_elem2 (snd p)) s) (cRev2 ch) s ;
   dor s <- each2 (rsucc2 S2) (cSucc2 ch) s ;
